@@ -1,6 +1,6 @@
 """C16 — no panics on well-formed input; NaN queries are harmless to the stateful evaluator."""
 from .common import *
-from .c03 import find_fn, mkself, field_index
+from .c03 import find_fn, mkself, field_roles, ROLES
 from ..terms import sym, term_str, NF, simp, subst_term, subterms, TRUE, FALSE
 from ..values import *
 from ..facts import adt, param
@@ -31,7 +31,12 @@ def check_nan_state(cx, rep):
         return
     inst = fev['path']
     file, line = fn_loc(fev)
-    iT, iLE = field_index(cx, 'tail'), field_index(cx, 'last_evaluation')
+    roles = field_roles(cx)
+    if roles is None:
+        rep.finding('floor', 'nan-state', 'PiecewiseEvaluator fields not recognised by role (front, cursor, last, last argument)')
+        return
+    ROLES['idx'] = roles
+    iT, iLE = roles['tail'], roles['L']
 
     def go():
         a = cx.analyse(fev, arg_names=['self', 'x'], arg_values=[mkself, None], key='c03-step')
